@@ -259,6 +259,10 @@ pub fn honest_response(kind: crate::drivers::Kind, q: u16, req: &[u8], wl: usize
                 v[24..28].copy_from_slice(&128u32.to_le_bytes());
             }
         }
+        (crate::drivers::Kind::Blk, 0) if wl == 21 => {
+            // GET_ID: an identifier that fills all 20 bytes (no terminating NUL), status OK.
+            v[..20].copy_from_slice(b"VLAB-0123456789-ABCD");
+        }
         (crate::drivers::Kind::P9, 0) if wl >= 7 => {
             // A minimal 9P reply: size[4] type[1] tag[2].
             v.truncate(7);
